@@ -267,7 +267,10 @@ def get_composite_from_store(store: Store) -> Composite:
         topology=store.get_topology(),
         steps=store.get_steps(),
         flow=store.get_flow(),
-        state=store.get_value(),
+        # (the variables only: a process node's value is the process with
+        # its topology, which is not state and must not be written back)
+        state=store.get_value(
+            condition=lambda node: not isinstance(node.value, Process)),
     )
 
 
